@@ -46,6 +46,15 @@ CHECKS = {
         ref="DESIGN.md §6 C10", technique="TLA+ model checking (TLC) + schedule replay under the Go race detector + trace validation",
         note=TLC_NOTE + " Data-race freedom itself is observed by the Go race detector on the executions the spec's schedules "
              "induce; TLA+ contributes the shared-state discipline, the schedules and the linearisability check of the counter."),
+    "C01": dict(
+        text="spec/Logic.tla holds the classical semantics Sat (the oracle) and a code-shaped transcription of the translator "
+             "(Parse/Negate push-down, failure-DNF Branches, Fires); TLC enumerates every formula of the scopes as an initial "
+             "state (depth<=2 over 2 atoms: 15578; depth<=1 over 3 atoms; quantified fragment x 10 contexts on a world holding "
+             "every assignment x 81 child multisets; thorough: depth<=2 over 3 atoms, 227k), proves 'some branch fires <=> ~Sat' "
+             "and the spelling invariants on each, and emits one implementation test per state; the tests are rendered with "
+             "24 documented constraint kinds and run through Validate and CompileProfile+ValidateCompiled, comparing the set "
+             "of reported target nodes. Random deep formulas on random graphs are validated by TLC (LogicTrace) against Sat.",
+        ref="DESIGN.md §6 C01", technique="TLA+ transcription + exhaustive small-scope enumeration (TLC) replayed into the code; TLC trace validation of random cases"),
 }
 
 NOT_YET = "no check registered yet for this property in the current state of the framework (design in DESIGN.md §6)"
